@@ -29,6 +29,7 @@ type Val struct {
 	K Kind
 	T types.Type // for pointers: the pointer type
 	C []Term
+	Nav bool // contract expressions: reference standing for a struct/array value (nested field or local), not a Go pointer
 
 	// pointers
 	Cell  int          // KCellPtr
